@@ -400,6 +400,11 @@ pub fn first_diff(
         if *k == "name" && accept_generated_name {
             continue;
         }
+        // CRAM stores MQ in the mapped-read part of a record only: the MAPQ of an unmapped read is
+        // not representable (and not among the fields the statement lists)
+        if *k == "mapq" && expected.is_unmapped() {
+            continue;
+        }
         if ev != ov {
             return Some((k, ev.clone(), ov.clone()));
         }
